@@ -250,7 +250,11 @@ def r3(run, ctx):
                 norm_text(s.call.args[0]) == norm_text(lc[0].generators[0].target)
             run.check('R3', ok, 'exactly the selected processes are killed', e, s.node.ast)
     kv = ctx.fn('circus.commands.kill:Kill.validate')
-    run.check('R3', "props['pid'] = int(props['pid'])" in norm_text(kv.node),
+    from rules.common import is_call_of
+    pid_int = [st for st in ast.walk(kv.node) if isinstance(st, ast.Assign) and
+               any(norm_text(t) == "props['pid']" for t in st.targets) and
+               is_call_of(kv.node, st.value, 'int', "props['pid']")]
+    run.check('R3', bool(pid_int),
               'the pid is normalised to an integer before the comparison', kv, kv.node,
               "a pid given as a string never equals p.pid: 'kill pid=N' silently kills nothing")
     se = ctx.fn('circus.commands.sendsignal:Signal.execute')
